@@ -71,6 +71,10 @@ func genC13(seed uint64, idx int, tier string) interface{} {
 			pl.Inputs = append(pl.Inputs, GenInput(ir, v, 10))
 		}
 	}
+	// one or two inputs aimed at the recipe's own rules
+	for i, n := 0, r.Range(1, 2); i < n; i++ {
+		pl.Inputs = append(pl.Inputs, GenTargetedInput(r.Fork(uint64(40+i)), pl.Recipe, fresh, r.Range(4, 12)))
+	}
 	tr := r.Fork(3)
 	ntasks := tr.Range(2, 6)
 	if tier == "thorough" && tr.Bool(0.2) {
